@@ -20,7 +20,7 @@ from utype.utils import exceptions as uexc   # noqa: E402
 
 ID = "C18"
 LEVEL = "model_checking"
-RULE = ("(a) 15 recursive declarations (an outer class whose override=True options carry the limit for a nested class without / with a larger one, Optional['N'], 'N' = None, List['N'], Tuple['N', ...], Dict[str, 'N'], Union[int, 'N'], "
+RULE = ("(a) 17 recursive declarations (two of them collecting errors, an outer class whose override=True options carry the limit for a nested class without / with a larger one, Optional['N'], 'N' = None, List['N'], Tuple['N', ...], Dict[str, 'N'], Union[int, 'N'], "
         "any_of('N', None), mutual recursion through a second class, List[Optional['N']], @utype.dataclass, DataClass base, a declared "
         "__init__ on a decorated class and on a Schema) x max_depth in {None, 1, 2, 3, 4} x inputs of "
         "data-class depth 1..6 with the nested value at list index 0 / 1 / 2, mapping key 'k' / '' / '0', either union branch, plain or "
@@ -60,6 +60,9 @@ DECLS = {
                        "class Outer(Schema):\n{opt_override}    v: int = 0\n    nxt: Optional[N] = None\n", "Outer", "nxt"),
     "override-outer-list": ("class N(Schema):\n    __options__ = Options(max_depth=50)\n    v: int = 0\n    kids: List['N'] = Field(default_factory=list)\n"
                             "class Outer(Schema):\n{opt_override}    v: int = 0\n    kids: List[N] = Field(default_factory=list)\n", "Outer", "kids[]"),
+    # the limit holds when errors are collected, too (exceeding it ends the parse of that branch at once)
+    "optional-collect": ("class N(Schema):\n{opt_collect}    v: int = 0\n    nxt: Optional['N'] = None\n", "N", "nxt"),
+    "list-collect": ("class N(Schema):\n{opt_collect}    v: int = 0\n    kids: List['N'] = Field(default_factory=list)\n", "N", "kids[]"),
     "list-optional": ("class N(Schema):\n{opt}    v: int = 0\n    kids: List[Optional['N']] = Field(default_factory=list)\n", "N", "kids[]"),
 }
 LIMITS = [None, 1, 2, 3, 4]
@@ -190,7 +193,9 @@ def _depth(acc, dname, tier):
     for limit in _limits(tier):
         opt = f"    __options__ = Options(max_depth={limit})\n" if limit else ""
         opt_override = f"    __options__ = Options(max_depth={limit}, override=True)\n" if limit else ""
-        src = tmpl.format(opt=opt, opt_override=opt_override)
+        opt_collect = (f"    __options__ = Options(max_depth={limit}, collect_errors=True)\n" if limit else
+                       "    __options__ = Options(collect_errors=True)\n")
+        src = tmpl.format(opt=opt, opt_override=opt_override, opt_collect=opt_collect)
         mod = load(src)
         cls = mod.__dict__[root]
         cases = []
